@@ -49,13 +49,39 @@ def part_of(line):
 
 
 def filt(lines, parts, sub=None):
+    """the lines of the compared parts; write calls on a staging file are not compared (how a staged
+    blob is cut into write calls, and whether an abandoned one is written at all, is a buffer size,
+    not behaviour)"""
     out = []
     for l in lines:
         p = part_of(l)
         if p in parts or p == "proc":
             if sub and not sub(l):
                 continue
-            out.append(canon_staging(l))
+            c = canon_staging(l)
+            if c.startswith("T append staging/"):
+                continue                      # what they must satisfy is the oracles' business (cas_immutable, abort_noop)
+            out.append(c)
+    return out
+
+
+def crash_blocks_collapsed(lines, parts):
+    """kill-point blocks of a crash-all run reduced to the compared parts, without their number and
+    without consecutive repetitions: a kill point that leaves the same image and the same recovery
+    as its predecessor adds nothing (e.g. one more write call on a staging file)"""
+    blocks, cur = [], None
+    for l in lines:
+        if l.startswith("CRASH "):
+            cur = []; blocks.append(cur); continue
+        if cur is None:
+            continue
+        if part_of(l) in parts or part_of(l) == "proc":
+            cur.append(canon_staging(l))
+    out = []
+    for b in blocks:
+        t = tuple(b)
+        if not out or out[-1] != t:
+            out.append(t)
     return out
 
 
@@ -233,11 +259,16 @@ def suite_crash(pid, tier, seed):
             diffs.append(f"K4 no output for case {name}"); continue
         rh, rl = Rn[name]
         mh, ml = Mn.get(name, ("", []))
-        if rh != mh:
-            diffs.append(f"K4 kill-at-k: number of effective calls differs in case {name}: impl `{rh}` vs model `{mh}`")
-        d = run.first_diff(filt(rl, parts), filt(ml, parts))
-        if d:
-            diffs.append(f"K4/K3 crash image / recovery correspondence differs in case {name}: impl `{d[1]}` vs model `{d[2]}`")
+        rb, mb = crash_blocks_collapsed(rl, parts), crash_blocks_collapsed(ml, parts)
+        if rb != mb:
+            # the sequence of DISTINCT crash states differs (kill points that repeat their predecessor's state do not count)
+            i = next((i for i in range(max(len(rb), len(mb))) if i >= len(rb) or i >= len(mb) or rb[i] != mb[i]), 0)
+            x = rb[i] if i < len(rb) else ("<missing>",)
+            y = mb[i] if i < len(mb) else ("<missing>",)
+            dl = next(((a, b) for a, b in zip(x, y) if a != b), (x[0] if x else "<empty>", y[0] if y else "<empty>"))
+            if len(x) != len(y) and all(a == b for a, b in zip(x, y)):
+                dl = ((x[len(y)] if len(x) > len(y) else "<missing>"), (y[len(x)] if len(y) > len(x) else "<missing>"))
+            diffs.append(f"K4/K3 crash image / recovery correspondence differs in case {name} (distinct crash state #{i}; impl {rh.split()[-1]}, model {mh.split()[-1] if mh else '?'}): impl `{dl[0]}` vs model `{dl[1]}`")
         blocks = oracle.split_crash_blocks(rl)
         points += len(blocks)
         for tag, k, msg in oracle.crash_oracle(c, rl):
@@ -263,15 +294,36 @@ def suite_fault(pid, tier, seed):
     R, M = headers_split(real), headers_split(model)
     diffs, failures, distinct = [], [], set()
     bycase = {case_name(c): c for c in cases}
-    for h, rl in R.items():
-        name = h.split()[1]
-        ml = M.get(h)
+    # runs are matched by WHICH call failed (its description and its occurrence number among equal
+    # descriptions), not by its position: one more or one fewer write call on a staging file shifts
+    # all positions without changing behaviour.  Unmatched runs whose failed call is a staging write
+    # are tolerated; any other unmatched run is a difference.
+    def keyed(H):
+        out, seen = {}, {}
+        for h, ls in H.items():
+            name = h.split()[1]
+            fc = next((canon_staging(l[8:]) for l in ls if l.startswith("T FAULT ")), "no-fault")
+            if fc.startswith("append staging/"):
+                fc = "append staging/#"
+            n = seen.get((name, fc), 0); seen[(name, fc)] = n + 1
+            out[(name, fc, n)] = (h, ls)
+        return out
+    RK, MK = keyed(R), keyed(M)
+    for key, (mh_, _) in MK.items():
+        if key not in RK and not key[1].startswith("append staging/") and key[1] != "no-fault":
+            diffs.append(f"K5 fail-at-k: implementation has no run in which `{key[1]}` (occurrence {key[2]}) of case {key[0]} fails")
+    for key, (h, rl) in RK.items():
+        name = key[0]
+        ml = MK.get(key, (None, None))[1]
         if ml is None:
-            diffs.append(f"K5 fail-at-k: model has no run `{h}`"); continue
-        fparts = spec.get("fault_corr", {"ret", "count"})
-        d = run.first_diff(filt(rl, fparts), filt(ml, fparts))
+            if not key[1].startswith("append staging/") and key[1] != "no-fault":
+                diffs.append(f"K5 fail-at-k: model has no run in which `{key[1]}` (occurrence {key[2]}) of case {name} fails")
+            ml = None
+        fparts = spec.get("fault_corr", {"ret"})
+        # which write call of a staging file fails depends on the buffer size: such runs are judged by the oracle only
+        d = run.first_diff(filt(rl, fparts), filt(ml, fparts)) if (ml is not None and not key[1].startswith("append staging/")) else None
         if d:
-            diffs.append(f"K5 fail-at-k correspondence differs in `{h}`: impl `{d[1]}` vs model `{d[2]}`")
+            diffs.append(f"K5 fail-at-k correspondence differs in `{h}` (failed call `{key[1]}`): impl `{d[1]}` vs model `{d[2]}`")
         fcall = next((l[8:] for l in rl if l.startswith("T FAULT ")), "")
         for tag, msg in oracle.fault_oracle(bycase[name], rl, h):
             if tag in spec["tags"] or tag == "malformed":
@@ -280,9 +332,6 @@ def suite_fault(pid, tier, seed):
                 f["fault_op"] = next((l.split(" ", 2)[2].split(" -> ")[0] for l in rl if l.startswith("R ") and " -> err:" in l), "")
                 failures.append(f)
         distinct.add("fault:" + hashlib.sha1("\n".join(l for l in rl if l.startswith("R ")).encode()).hexdigest()[:16])
-    for h in M:
-        if h not in R:
-            diffs.append(f"K5 fail-at-k: implementation has no run `{h}`")
     return dict(evaluations=len(R), distinct=distinct,
                 samples=[dict(suite="fault", case=cases[0].splitlines(), fault_positions=sum(1 for h in R if h.split()[1] == case_name(cases[0])))],
                 diffs=diffs[:5], failures=failures, traces=len(R),
